@@ -2,4 +2,4 @@ From Coq Require Extraction.
 From Coq Require Import ExtrOcamlBasic.
 From S2S Require Import Policy.Model.
 Extraction Language OCaml.
-Extraction "policy_model.ml" forwarded.
+Extraction "policy_model.ml" forwarded list_filter.
